@@ -205,3 +205,28 @@ PROPS["C04"] = {
     ],
     "min_nontrivial": {"quick": 5000, "thorough": 50000},
 }
+
+PROPS["C15"] = {
+    "level": "exploration",
+    "design_ref": "DESIGN.md §4.15",
+    "technique": "exhaustive enumeration of operator sequences with an independent precedence-climbing oracle + rapid typed trees rendered in several parenthesis/case styles; structural comparison of the parse tree; print->parse fixpoint",
+    "level_text": "Bounded-exhaustive exploration: every operator sequence x0 o1 x1 .. on xn with n <= 4 (thorough 5) over {| or & and = < in between + - * /} "
+                  "is written without parentheses; the expected tree comes from an independent precedence-climbing over the documented table, leaves are "
+                  "typed top-down (untypeable sequences are skipped and counted), optional ! prefixes and call/index leaves are mixed in. "
+                  "Parser.Parse must accept the text and return a tree structurally equal to the generating tree (walk over exported node types, "
+                  "independent of String()). rapid adds random typed trees rendered with minimal, random redundant and full parentheses and random "
+                  "letter case of keywords, operator words and function names. For every accepted case the canonical rendering String() is parsed "
+                  "again and must render and parse identically (fixpoint).",
+    "level_note": "Trusted: the documented precedence table as encoded in lib/render.go (DocPrec) and the s-expression walkers. Literals are free of "
+                  "quote characters (the language has no escape syntax). Only pre-optimisation trees are round-tripped.",
+    "rule": "enumerated operator sequences (each emitted once; typeable ones are cases) + rapid trees depth 1-5 x 4 parenthesis styles x random case, "
+            "as WHERE or as select field. Non-trivial = the expression has at least two binary operators (precedence or associativity is exercised); "
+            "distinct = distinct query texts.",
+    "assumptions": ["Go toolchain and pgregory.net/rapid v1.3.0 are trusted",
+                    "redundant parentheses are never put directly around the list-valued right operand of IN (`x in (f())` is a one-element list by the grammar)"],
+    "legs": [
+        {"test": "TestC15Sequences", "kind": "enum", "quick": {"shards": 2}, "thorough": {"shards": 16}},
+        {"test": "TestC15Trees", "kind": "rapid", "quick": {"checks": 5000, "shards": 4}, "thorough": {"checks": 200000, "shards": 12}},
+    ],
+    "min_nontrivial": {"quick": 5000, "thorough": 50000},
+}
